@@ -21,7 +21,7 @@ import os
 import re
 
 MAPS = ["channels", "in_channels", "connections", "self.connections"]
-GUARDING = ["get", "get_mut", "entry", "iter", "iter_mut", "try_get", "try_get_mut"]
+GUARDING = ["get", "get_mut", "entry", "iter", "iter_mut", "try_get", "try_get_mut", "try_entry"]
 FILES = ["crates/server/src/channel/mod.rs", "crates/server/src/c2s/router.rs"]
 
 
@@ -221,6 +221,13 @@ def analyse_file(rel, raw):
                 region = (s0, stmt_end(src, call_end + 1, fe))
                 shape = "S3"
         else:
+            if meth.startswith("try_"):
+                region = (m.start(), call_end + 1)
+                shape = "S4"
+                text = src[region[0]:region[1]]
+                sites.append((rel, fname, line, mapn, meth, shape, False))
+                bad.append("%s:%d fn %s: %s.%s may report a present entry as unavailable while its shard is locked" % (rel, line, fname, mapn, meth))
+                continue
             if meth not in ("remove", "remove_if", "remove_if_mut", "contains_key", "len", "insert", "is_empty", "retain", "alter", "clear"):
                 raise Shape(f"{rel}:{line}: unknown DashMap method `{mapn}.{meth}` in fn {fname}")
             # these calls take the shard lock only for their own duration and return owned data
@@ -229,6 +236,10 @@ def analyse_file(rel, raw):
         text = src[region[0]:region[1]]
         has_await = re.search(r"\.\s*await\b", text) is not None
         sites.append((rel, fname, line, mapn, meth, shape, has_await))
+        if meth.startswith("try_"):
+            # a non-blocking lookup reports a shard that is merely being written as Locked: treating that like Absent
+            # makes a present entry disappear for an instant (a delivery, a membership check silently skipped)
+            bad.append("%s:%d fn %s: %s.%s may report a present entry as unavailable while its shard is locked" % (rel, line, fname, mapn, meth))
         if has_await:
             aw = region[0] + re.search(r"\.\s*await\b", text).start()
             bad.append("%s:%d fn %s: %s.%s guard (%s) alive across the await at line %d" % (
@@ -261,7 +272,8 @@ def gen(repo):
            "From Coq Require Import String List NArith.", "Import ListNotations.", "Local Open Scope string_scope.", "",
            "(* accesses to sharded maps whose guard region was determined: %s *)" % ", ".join("%s=%d" % kv for kv in sorted(by.items())),
            "Definition map_access_sites : N := %d%%N." % len(sites), "",
-           "(* accesses whose shard guard is alive across an await point *)",
+           "(* accesses whose shard guard is alive across an await point, and non-blocking (try_*) lookups, which can miss a",
+           "   present entry while its shard is locked *)",
            "Definition guard_across_await : list string := [" + ";\n  ".join(q(b) for b in bad) + "].", ""]
     return "\n".join(out)
 
